@@ -10,6 +10,208 @@ open C03LeafModel
 open C04XrefModel
 open C03SencPassModel
 
+(* ---- H lines: encode histories through the two encoder models (coq/c03/C03EncHistModel.v over the C02 aggregate states); the token
+   parsers and digests mirror ocaml/c02_driver.ml *)
+module Hist = struct
+  open BinNums
+  open Vx
+  open C05Model
+  open C05FragModel
+  open C02AggModel
+  open C03EncHistModel
+
+  let hexn s = n_of_hex s
+  let hn n = hex_of_n n
+  let hz z = hex_of_z z
+  type ts = { toks : string array; mutable pos : int }
+  let next t = let x = t.toks.(t.pos) in t.pos <- t.pos + 1; x
+  let nint t = int_of_string (next t)
+  let nbool t = (next t = "1")
+  let nn t = hexn (next t)
+  let rec times k f = if k <= 0 then [] else let x = f () in x :: times (k - 1) f
+  let bad_oboxes : string list ref = ref []
+  let p_obox_body t : obox =
+    let ty = bytes_of_hex (next t) in
+    let sz = nn t in
+    let by = (let h = next t in if h = "-" then [] else bytes_of_hex h) in
+    let e = nbool t in
+    let o = { ob_type = ty; ob_size = sz; ob_bytes = by; ob_err = e } in
+    if not e && not (ob_wf o) then bad_oboxes := (hn sz) :: !bad_oboxes;
+    o
+  let p_obox t : obox = match next t with "O" -> p_obox_body t | x -> failwith ("expected O, got " ^ x)
+  let p_tfhd t : tfhd =
+    let f = nn t in let tk = nn t in let bdo = nn t in let sdi = nn t in
+    let dd = nn t in let ds = nn t in let df = nn t in
+    { tf_flags = f; tf_track = tk; tf_bdo = bdo; tf_sdi = sdi; tf_ddur = dd; tf_dsize = ds; tf_dflags = df }
+  let p_trun t : trun =
+    let v = nn t in let f = nn t in let d = z_of_hex (next t) in let fsf = nn t in let won = nn t in
+    let n = nint t in
+    let ss = times n (fun () ->
+        let fl = nn t in let du = nn t in let sz = nn t in let c = z_of_hex (next t) in
+        { s_flags = fl; s_dur = du; s_size = sz; s_cto = c }) in
+    { tr_version = v; tr_flags = f; tr_doff = d; tr_fsf = fsf; tr_samples = ss; tr_won = won }
+  let p_tchild t : tchild =
+    match next t with
+    | "h" -> TcTfhd (p_tfhd t)
+    | "d" -> let v = nn t in let b = nn t in TcTfdt { td_version = v; td_base = b }
+    | "r" -> TcTrun (p_trun t)
+    | "O" -> TcOther (p_obox_body t)
+    | x -> failwith ("bad traf child " ^ x)
+  let p_moof t : mchild list =
+    let n = nint t in
+    times n (fun () ->
+        match next t with
+        | "H" -> McMfhd (nn t)
+        | "T" -> let k = nint t in McTraf (times k (fun () -> p_tchild t))
+        | "O" -> McOther (p_obox_body t)
+        | x -> failwith ("bad moof child " ^ x))
+  let p_mdat t : mdat =
+    let data = (let h = next t in if h = "-" then [] else bytes_of_hex h) in
+    let np = nint t in
+    let parts = times np (fun () -> let h = next t in if h = "-" then [] else bytes_of_hex h) in
+    let lz = nn t in
+    let large = nbool t in
+    { md_data = data; md_parts = parts; md_lazy = lz; md_large = large }
+  let p_frag t : afrag =
+    (match next t with "F" -> () | x -> failwith ("expected F, got " ^ x));
+    let opt = nbool t in
+    let npre = nint t in
+    let pre = times npre (fun () -> p_obox t) in
+    let moof = if nbool t then Some (p_moof t) else None in
+    let nmid = nint t in
+    let mid = times nmid (fun () -> p_obox t) in
+    let md = if nbool t then Some (p_mdat t) else None in
+    let npost = nint t in
+    let post = times npost (fun () -> p_obox t) in
+    { af_pre = pre; af_moof = moof; af_mid = mid; af_mdat = md; af_post = post; af_opt = opt }
+  let p_seg t : aseg =
+    (match next t with "S" -> () | x -> failwith ("expected S, got " ^ x));
+    let opt = nbool t in
+    let styp = if nbool t then Some (p_obox t) else None in
+    let ns = nint t in
+    let sidxs = times ns (fun () -> p_obox t) in
+    let nf = nint t in
+    let frags = times nf (fun () -> p_frag t) in
+    { sg_styp = styp; sg_sidxs = sidxs; sg_frags = frags; sg_opt = opt }
+  let p_init t : obox list = let n = nint t in times n (fun () -> p_obox t)
+  let p_file t : afile =
+    (match next t with "L" -> () | x -> failwith ("expected L, got " ^ x));
+    let fragm = nbool t in
+    let mode = n_of_int (nint t) in
+    let opt = nbool t in
+    let shared = nbool t in
+    let init = if nbool t then Some (p_init t) else None in
+    let ns = nint t in
+    let sidxs = times ns (fun () -> p_obox t) in
+    let nseg = nint t in
+    let segs = times nseg (fun () -> p_seg t) in
+    let mfra = if nbool t then Some (p_obox t) else None in
+    let nc = nint t in
+    let cs = times nc (fun () ->
+        match next t with
+        | "M" -> FcMoof (p_moof t)
+        | "D" -> FcMdat (p_mdat t)
+        | "O" -> FcOther (p_obox_body t)
+        | x -> failwith ("bad file child " ^ x)) in
+    { fl_fragmented = fragm; fl_mode = mode; fl_opt = opt; fl_shared = shared; fl_init = init; fl_sidxs = sidxs; fl_segs = segs;
+      fl_mfra = mfra; fl_children = cs }
+  let dig_moof b (m : mchild list) =
+    L.iter (fun c ->
+        match c with
+        | McTraf tr ->
+          Buffer.add_string b "T(";
+          L.iter (fun tc ->
+              match tc with
+              | TcTfhd h -> Buffer.add_string b (Printf.sprintf "h%s,%s,%s,%s;" (hn h.tf_flags) (hn h.tf_ddur) (hn h.tf_dsize) (hn h.tf_dflags))
+              | TcTrun r -> Buffer.add_string b (Printf.sprintf "r%s,%s,%s;" (hn r.tr_flags) (hz r.tr_doff) (hn r.tr_fsf))
+              | _ -> ()) tr;
+          Buffer.add_string b ")"
+        | _ -> ()) m
+  let dig_mdat b (m : mdat option) =
+    match m with None -> Buffer.add_string b "-" | Some m -> Buffer.add_string b (if m.md_large then "D1" else "D0")
+  let dig_frag b (f : afrag) =
+    Buffer.add_string b (if f.af_opt then "F1[" else "F0[");
+    (match f.af_moof with None -> Buffer.add_string b "-" | Some m -> dig_moof b m);
+    Buffer.add_string b "]";
+    dig_mdat b f.af_mdat
+  let dig_seg b (s : aseg) =
+    Buffer.add_string b (if s.sg_opt then "S1" else "S0");
+    L.iter (dig_frag b) s.sg_frags
+  let dig_file b (f : afile) =
+    if afile_seg_mode f then begin
+      Buffer.add_string b "L"; L.iter (dig_seg b) f.fl_segs
+    end else begin
+      Buffer.add_string b "C";
+      L.iter (fun c ->
+          match c with
+          | FcMoof m -> Buffer.add_string b "["; dig_moof b m; Buffer.add_string b "]"
+          | FcMdat m -> dig_mdat b (Some m)
+          | FcOther _ -> ()) f.fl_children
+    end
+  let string_of_bytes (l : coq_N list) : string =
+    let b = Buffer.create 1024 in
+    L.iter (fun x -> Buffer.add_char b (Char.chr ((int_of_n x) land 255))) l;
+    Buffer.contents b
+  let be32_at s p = (Char.code s.[p] lsl 24) lor (Char.code s.[p+1] lsl 16) lor (Char.code s.[p+2] lsl 8) lor Char.code s.[p+3]
+  let top_lens (s : string) : int list option =
+    let n = S.length s in
+    let rec go pos acc =
+      if pos >= n then Some (L.rev acc)
+      else if n - pos < 8 then None
+      else begin
+        let sz = be32_at s pos in
+        if sz = 1 then begin
+          if n - pos < 16 then None
+          else begin
+            let hi = be32_at s (pos + 8) and lo = be32_at s (pos + 12) in
+            if hi >= 0x40000000 then None
+            else
+              let sz = (hi lsl 32) lor lo in
+              if sz < 16 || sz > n - pos then None else go (pos + sz) (sz :: acc)
+          end
+        end
+        else if sz < 8 || sz > n - pos then None
+        else go (pos + sz) (sz :: acc)
+      end
+    in go 0 []
+  let out_string (o : aout) : string =
+    match o with
+    | OutSize n -> "S" ^ hn n
+    | OutInfo -> "I"
+    | OutErr -> "E"
+    | OutPanic -> "P"
+    | OutBytes boxes ->
+      let s = S.concat "" (L.map string_of_bytes boxes) in
+      let lens = match top_lens s with None -> "X" | Some [] -> "-" | Some l -> S.concat "," (L.map (Printf.sprintf "%x") l) in
+      Printf.sprintf "B%x:%s:%s" (S.length s) (Digest.to_hex (Digest.string s)) lens
+  (* e -> the model of Encode, w -> the model of EncodeSW *)
+  let op_of_char c = match c with 's' -> HSize | 'i' -> HInfo | 'e' -> HEncode | 'w' -> HEncodeSW | _ -> failwith "bad op"
+  let history (type s) (a : s hagg) (dig : Buffer.t -> s -> unit) (s0 : s) (ops : string) : string =
+    let st = ref s0 in
+    let obs = ref [] in
+    (try
+       S.iter (fun c ->
+           let (s', o) = hstep a !st (op_of_char c) in
+           st := s';
+           match o with
+           | OutPanic -> obs := "P" :: !obs; raise Exit
+           | _ ->
+             let b = Buffer.create 256 in
+             dig b s';
+             obs := (out_string o ^ "/" ^ Buffer.contents b) :: !obs) ops
+     with Exit -> ());
+    S.concat " " (L.rev !obs)
+  let group (kind : string) (tokens : string) (ops : string) : string =
+    let t = { toks = Array.of_list (split_on ' ' tokens); pos = 0 } in
+    bad_oboxes := [];
+    let m = match kind with
+      | "frag" -> history hfrag_agg dig_frag (p_frag t) ops
+      | "seg" -> history hseg_agg dig_seg (p_seg t) ops
+      | "file" -> history hfile_agg dig_file (p_file t) ops
+      | _ -> failwith "bad kind" in
+    if !bad_oboxes <> [] then "SKIP" else m
+end
+
 let b01 b = if b then "1" else "0"
 let cls_of (r : 'a res) : string =
   match r with Ok _ -> "ok" | Err -> "err" | Panic -> "panic" | OutOfFuel -> "hang"
@@ -208,6 +410,18 @@ let () =
             "dec=ok|" ^ file_obs f ^ "|t=" ^ S.concat "&" (L.map2 one moofs states)
           | r -> "dec=" ^ cls_of r in
         if m = obs then Printf.printf "OK %s\n" id else Printf.printf "MISMATCH %s senc-pass model=%s\n" id m
+      | "H" :: id :: kind :: _hist :: ng :: rest ->
+        (* groups of (tokens, ops, observations): the model continues from the re-read state after every addition / toggle *)
+        let rec go k l = match l with
+          | tok :: ops :: obs :: r ->
+            let m = Hist.group kind tok ops in
+            if m = "SKIP" || m = obs then go (k + 1) r else Some (k, m)
+          | [] -> None
+          | _ -> Some (-1, "bad H line") in
+        ignore ng;
+        (match go 0 rest with
+         | None -> Printf.printf "OK %s\n" id
+         | Some (k, m) -> Printf.printf "MISMATCH %s encode-history group %d model=%s\n" id k (S.sub m 0 (min 400 (S.length m))))
       | ["B"; id; hex; o1; o2] ->
         let bs = bytes_of_hex hex in
         let m1 =
